@@ -37,7 +37,7 @@ CLAIMED = {
  'C12': ('Theorems locked_rejects_bind / locked_rejects_register / finalize_twice / finalize_outcome / unlock_restores (every body, nested, '
          'raising) / lock_changes_only_by / hook_conflict_detected / finalize_rejects_invalid hold for every state and history; tied to '
          'gin.config by random histories of finalize, nested unlock blocks (normal and raising exit), binds, registrations, clears and '
-         'data-driven hooks, with an independent Python reference state machine judging the implementation.',
+         'data-driven hooks, with an independent Python reference state machine judging the implementation. dict_key_is_flattened / unknown_reference_key_is_invalid: what sits in a key of a bound dict is validated like what sits in a value.',
          BASE + 'Hooks are characterised by what they return or raise.'),
  'C14': ('Theorems includes_are_inplace (parsing a text with includes = parsing its flattening, to any nesting depth, up to provenance / '
          'import bookkeeping: same bindings, same error class; mutual induction over nested statements) / includes_same_config / resolve_sound / resolve_none_iff / resolve_first (location-major, reader-minor order) / resolve_absolute / '
@@ -45,7 +45,7 @@ CLAIMED = {
          'entry_point_bindings_then_finalize / entry_point_missing_file_stops hold for every file tree, location and reader list; tied '
          'to gin.config by include trees in real temporary files parsed through all three entry points (default arguments), compared '
          'with the mirror and with a fresh-interpreter parse of the flattened text, and by 1-4 locations x 1-3 readers with the file '
-         'present at random subsets, relative and absolute names.',
+         'present at random subsets, relative and absolute names. Package-relative names (regular package, namespace package with one or two roots, a same-named directory on the Python path that does not hold the file, a name nobody can read) are a table on the real file system.',
          BASE + 'Partial: path joining, isfile and file I/O are the OS\'s; package-relative names (resource_reader) are not modelled; '
          'imports whose module registers configurables are modelled (Stmt.imp regs) and generated.'),
  'C15': ('Theorems skip_decision / known_never_skipped / skipped_binding_is_noop / skipped_block_is_noop / missing_import / '
@@ -160,7 +160,7 @@ CLAIMED = {
          'operative_only_supplied (binding, or configurable representable default) / call_records (entry update, frame for never-called '
          'configurables) / rejected_call_records_nothing hold for every signature, lists, store, scope and argument split; the mirror is '
          'tied to gin.config by comparing the parsed operative_config_str() after every call; the replay half (clear, parse the text, '
-         'repeat the calls: same arguments, same text) is executed on the real code for every generated case with a fixed store.',
+         'repeat the calls: same arguments, same text) is executed on the real code for every generated case with a fixed store. A table on the real code checks that the operative text is still produced and parses after a call that evaluated an unbound macro, and that a recorded reference survives the re-registration of its class.',
          BASE + 'Partial: the replay theorem is about the record as a store (reference-free values, every supplied value taken as representable); '
          'that the text of the record parses back to that store is C06/C02 and is checked by real replay. Calls failing on a missing REQUIRED are excluded from replay (DESIGN §7 D23). Values reference-free here.'),
  'C08': ('Theorems inv_reachable / matching_spec / matching_nodup / getMatch_spec / getAll_spec / minimal_spec (the reported name is a '
@@ -175,7 +175,7 @@ CLAIMED = {
          'registration state machine is tied to gin.config by random histories of accepted and rejected registrations (registry observed '
          'after each, independent Python reference as judge); the object-model half (direct call vs registry call, type / isinstance / '
          'issubclass, metadata, signature, pickling, class __dict__ untouched) is decided on the real code over a fixed table of 14 '
-         'shapes x 3 APIs x scoped/unscoped, enumerated completely on every run.',
+         'shapes x 3 APIs x scoped/unscoped, enumerated completely on every run. Shapes also include a falsy callable object registered in the direct form, constructors that are aliases of other functions, a bound method and a callable object; a caller\'s positional value must win over a binding for every shape but the decorated one.',
          BASE + 'Partial: instance class, functools.wraps metadata and pickling are CPython\'s; they are checked on the real code only '
          '(finite table), the theorems cover the registration state machine and the decision table.'),
  'C19': ('Theorems emitted_selector_resolves (every selector the import manager of config_str() emits resolves, in a file making exactly '
